@@ -92,17 +92,22 @@ class TalCheck(CheckBase):
                 s_i, o_i = serialise(tmpl["files"][name],
                                      pretty=case.get("pretty", False),
                                      fname=path)
+                if case.get("crlf"):
+                    # (a Windows checkout: lines and columns stay the same)
+                    s_i = s_i.replace("\n", "\r\n")
                 for o in o_i:
                     if o["parent"] is not None:
                         o["parent"] += len(occ)
                 occ += o_i
                 parts.append("#### %s\n%s" % (name, s_i))
-                with open(path, "w", encoding="utf-8") as f:
+                with open(path, "w", encoding="utf-8", newline="") as f:
                     f.write(s_i)
             src = "\n".join(parts)
         else:
             src, occ = serialise(tmpl["tree"],
                                  pretty=case.get("pretty", False))
+            if case.get("crlf"):
+                src = src.replace("\n", "\r\n")
         log.add("src", short_hash(src))
         try:
             if tmpdir is not None:
